@@ -666,7 +666,11 @@ func (v *V) instanceFl(k, fl string, d int, only string) any {
 		return out
 	case "responses":
 		out := map[string]any{}
-		codes := []string{"default", "200", "201", "404", "500", "418"}
+		codes := []string{"default", "200", "201", "404", "500", "418", "600", "999", "100"} // (the Swagger schema admits any three digits)
+		if !v.O.Valid {
+			// any integer is kept as a status code by the typed form
+			codes = append(codes, "99", "1000", "0", "-1", "2147483647")
+		}
 		n := 1 + Uniform(v.T, "ncodes", 3)
 		start := Uniform(v.T, "codestart", len(codes))
 		for i := 0; i < n; i++ {
